@@ -9,6 +9,7 @@ CONSTANTS
   Dyn = FALSE
 VIEW View
 INVARIANT PlacementsExact
+INVARIANT NoDuplicates
 INVARIANT OutputBracketed
 INVARIANT DeletionsFirst
 INVARIANT ClearedOnStartStopClear
